@@ -67,7 +67,7 @@ func zzFragPopAll(f *FragmentBuffer, stored int) {
 // of Length 0 whose only fragment is zero-length at an offset other than 0: nil dereference in Pop) is inside
 // these bounds and was reported by this entry as panic:...@Pop before its fix.
 //
-//symgo:entry covers=pushed,rejected,rejected_after_partial_store,not_handshake,popped,two_in_one_record,nothing_to_pop
+//symgo:entry covers=pushed,rejected,rejected_after_partial_store,not_handshake,popped,two_in_one_record,nothing_to_pop nonterm=violation
 func zzFragPushOneNoPanic() {
 	nbody := zzsymParam("FRAG_NBODY1")
 	f := New()
@@ -158,7 +158,7 @@ func zzFragSeq(k, nbody int, two bool) {
 // sequence number. Proved: no call panics, the pop loops terminate, and after every call the counters equal
 // what is stored and are within the fixed caps.
 //
-//symgo:entry covers=pushed,rejected,popped,retransmit,same_message_twice,duplicate_offset,nothing_to_pop,advance_dropped paths=60000
+//symgo:entry covers=pushed,rejected,popped,retransmit,same_message_twice,duplicate_offset,nothing_to_pop,advance_dropped paths=60000 nonterm=violation
 func zzFragSeqNoPanic() {
 	zzFragSeq(zzsymParam("FRAG_K"), zzsymParam("FRAG_NBODY"), false)
 }
@@ -166,7 +166,7 @@ func zzFragSeqNoPanic() {
 // As zzFragSeqNoPanic with two records, where the second record has room for two handshake fragments
 // (37..37+FRAG_NBODY bytes; how the bytes are split is decided by the symbolic length fields).
 //
-//symgo:entry tier=thorough covers=pushed,rejected,popped,retransmit,same_message_twice,two_in_one_record,nothing_to_pop,advance_dropped paths=60000
+//symgo:entry tier=thorough covers=pushed,rejected,popped,retransmit,same_message_twice,two_in_one_record,nothing_to_pop,advance_dropped paths=60000 nonterm=violation
 func zzFragSeqTwoNoPanic() {
 	zzFragSeq(2, zzsymParam("FRAG_NBODY"), true)
 }
